@@ -213,3 +213,20 @@ class Check:
             self.pid, self.tier, self.stats["scenarios"], self.stats["accepted"], self.stats["events_accepted"],
             self.stats["tlc_states"], sum(self.known.values()), len(self.violations), wall))
         return 1 if self.violations else 0
+
+
+def replay(pid, path, seed, module, fn):
+    """re-execute the scenario stored in a violation replay file against the current tree and re-validate it"""
+    d = json.load(open(path))
+    chk = Check(pid, "replay", seed)
+    chk.findings = []
+    chk.run_scenarios([d["scenario"]], module, fn=fn, tag="replay")
+    for key, p in chk.violations:
+        print("VIOLATION property=%s replay=%s  (%s %s clauses=%s sites=%s)" % (pid, path, key["scenario"], key["op"],
+                                                                              ",".join(key["clauses"]), ",".join(key["sites"])))
+    if chk.machinery_errors:
+        print("MACHINERY-ERROR: " + chk.machinery_errors[0], file=sys.stderr)
+        return 2
+    if not chk.violations:
+        print("replay accepted by the specification (no violation on the current tree)")
+    return 1 if chk.violations else 0
